@@ -1,13 +1,14 @@
 SPECIFICATION Spec
 CONSTANTS
-  MaxPos = 2
-  KwNames = {1, 2, 11, 21}
-  MaxArgs = 3
+  MaxPos = 1
+  KwNames = {1, 11, 21}
+  MaxArgs = 2
   MaxKw = 2
-  MaxSteps = 2
+  MaxSteps = 3
   AsCoded = FALSE
   SimK = 0
 CONSTRAINT StepBound
+CONSTRAINT CallsLast
 VIEW view
 INVARIANT TypeOK
 INVARIANT EffectiveWellDefined
